@@ -30,6 +30,9 @@ CHECK_MV_ROUNDTRIP = os.environ.get("C08_MV_ROUNDTRIP", "1") == "1"
 # damaged model streams fed to serialize::lambda::load (D cases): needs the loader fixes of findings/C08.json
 # (branch wt2b-c08) in the tree; default off until they are in /repo, then make "1" the default
 CHECK_DAMAGED = os.environ.get("C08_DAMAGED", "1") == "1"
+# V cases (validation frame filled by holdout / dss): need "fix: the validation dataframe filled by holdout / dss
+# has no class map ..." (findings/C08.json, branch wt5-c08); default off until it is in /repo
+CHECK_VALIDATION_FRAME = os.environ.get("C08_VALIDATION_FRAME", "0") == "1"
 WORD_RE = re.compile(r"^[A-Za-z_][A-Za-z_0-9]*$")
 
 
@@ -287,6 +290,16 @@ def gen_cases(ck):
     for combo in COMBOS_T:
         for _ in range(nt):
             lines.append(case_line("T", gen_header(rng, combo)))
+    # evaluator / lambdify on a validation frame filled by the real holdout / dss strategy
+    # (examples arrive by push_back; classes may be absent from one side)
+    if CHECK_VALIDATION_FRAME:
+        for combo in ("dyn/ind", "gauss/ind", "bin/ind", "dyn/wta", "gauss/wta", "bin/wta"):
+            for _ in range(8 if not ck.thorough else 120):
+                c = gen_header(rng, combo)
+                while len(c["train"]) < 2:
+                    c = gen_header(rng, combo)
+                lines.append(case_line("V", c) + " %s %d %d" % (rng.choice(["holdout", "dss"]),
+                                                                rng.choice([20, 50, 50, 80, 99]), rng.randint(1, 10 ** 6)))
     if CHECK_DAMAGED:
         for combo in COMBOS_T:
             for _ in range(1 if not ck.thorough else 12):
@@ -428,6 +441,48 @@ def oracle_dyn_tables(c, R, combo):
                         "row %d falls in slot %d (class %d, counts %s) but the answer is %s" % (j, s, cls[s], rows[s], p)))
             break
     return bad
+
+
+def parse_V_result(rt):
+    out = {"vc": None, "vs": None, "ts": None, "vrows": [], "fit": None, "l": []}
+    cur = None
+    i = 0
+    while i < len(rt):
+        w = rt[i]
+        if w in ("vc", "vs", "ts", "fit"):
+            out[w] = rt[i + 1]
+            i += 1
+            cur = None
+        elif w in ("vrows", "l"):
+            cur = w
+        elif cur:
+            out[cur].append(w)
+        i += 1
+    return out
+
+
+def synth_T_from_V(line, otoks, rt):
+    """the T case whose training set is the validation frame (rows in frame order),
+    with the oracle outputs of those rows: what the model says the evaluator over
+    the validation frame computes"""
+    c = parse_case(line)
+    R = parse_V_result(rt)
+    try:
+        rows = [int(x) for x in R["vrows"]]
+    except ValueError:
+        return None
+    if not rows or any(r < 0 for r in rows):
+        return None
+    ntr, nq, npg = len(c["train"]), len(c["query"]), len(c["progs"])
+    if len(otoks) != npg * (ntr + nq):
+        return None
+    c2 = dict(c)
+    c2["train"] = [c["train"][r] for r in rows]
+    o2 = []
+    for p in range(npg):
+        base = p * (ntr + nq)
+        o2 += [otoks[base + r] for r in rows] + otoks[base + ntr:base + ntr + nq]
+    return case_line("T", c2) + " O " + " ".join(o2)
 
 
 def oracle_T(c, otoks, rt):
@@ -626,6 +681,12 @@ def run(ck):
     mlines, midx = [], []
     for k, (l, o) in enumerate(zip(lines, hout)):
         ot, rt = split_out(o or "")
+        if ot is not None and l.startswith("V"):
+            vt = synth_T_from_V(l, ot, rt)
+            if vt:
+                mlines.append(vt)
+                midx.append(k)
+            continue
         if ot is not None and not l.startswith("D"):
             ml = l + " O " + " ".join(ot)
             if l.startswith("T") and " mv " not in l[:20]:
@@ -653,6 +714,12 @@ def run(ck):
             what = "heap-use-after-free" if "heap-use-after-free" in rep else (
                 "leak" if "LeakSanitizer" in rep or "detected memory leaks" in rep else "sanitizer-report")
             dl = [x for x in rep.splitlines() if x.startswith("D-")]
+            if c["kind"] == "V":
+                ck.add_violation("validation-frame:%s:%s:%s" % (line.split()[-3], c["scheme"] + "/" + c["comp"], what),
+                                 "%s evaluator / lambdify on the validation frame filled by %s: %s"
+                                 % (c["scheme"] + "/" + c["comp"], line.split()[-3], what),
+                                 {"cases": [line], "sanitizer": rep[-2500:]})
+                continue
             if c["kind"] == "D":
                 ck.add_violation("damaged-load:%s:%s" % (c["scheme"] + "/" + c["comp"], what),
                                  "%s: damaged model stream variant %s: %s in serialize::lambda::load or in the loaded model"
@@ -662,6 +729,33 @@ def run(ck):
             ck.add_violation("%s:%s:%s" % ("history" if c["kind"] == "H" else "predict", c["scheme"] + "/" + c["comp"], what),
                              "%s/%s model: %s while running the case" % (c["scheme"], c["comp"], what),
                              {"cases": [line], "impl": ho, "sanitizer": rep[-2500:]})
+            continue
+        if c["kind"] == "V":
+            combo2 = c["scheme"] + "/" + c["comp"]
+            strategy = line.split()[-3]
+            ot, rt = split_out(ho)
+            ck.nontriv(("V", combo2, strategy, hash(line) % 100000))
+            if rt is None:
+                ck.add_diff({"case": line}, mres.get(k), ho, what="harness could not run the case: " + ho[:200])
+                continue
+            R = parse_V_result(rt)
+            if R["vc"] is not None and int(R["vc"]) != c["classes"] and int(R["vs"] or 0) > 0:
+                ck.add_violation("validation-frame:%s:classes-lost" % strategy,
+                                 "after %s the validation frame holds %s examples of a %d-class problem but reports "
+                                 "classes() = %s: classification evaluators / models built on it size their tables with it"
+                                 % (strategy, R["vs"], c["classes"], R["vc"]), {"cases": [line], "impl": ho[:600]})
+            for p in R["l"]:
+                pb = check_tag(c, p, "on a query, model lambdify'ed from the validation frame")
+                if pb:
+                    ck.add_violation("tag:%s:contract" % combo2, "%s: %s" % (combo2, pb), {"cases": [line], "impl": ho[:600]})
+                    break
+            mo = mres.get(k)
+            if mo is not None and not mo.startswith(("UB", "BADLINE")):
+                Rm = parse_T_result(mo.split()[1:])
+                ck.coverage["validation_frame_compared"] = ck.coverage.get("validation_frame_compared", 0) + 1
+                if Rm["fit"] != R["fit"] or Rm["q"] != R["l"]:
+                    ck.add_diff({"case": line}, "fit %s l %s" % (Rm["fit"], Rm["q"]), "fit %s l %s" % (R["fit"], R["l"]),
+                                what="evaluator / lambdify over the validation frame differ from the model on the same rows")
             continue
         if c["kind"] == "D":
             # documented outcomes of serialize::lambda::load on a damaged stream: a model, nullptr, or
